@@ -187,7 +187,7 @@ RESOLUTIONS = ["480p (640 x 480)", "720p (1280 x 720)", "1080p (1920 x 1080)", "
 
 @st.composite
 def specs(draw, sharing=None, builders=None, max_len=48, long_prob=0.1, neg_stored=0.15, fixed=0.2,
-          max_ups=3, spare_ups=2, empty_lists=0.05, explicit=0.7):
+          max_ups=3, spare_ups=2, empty_lists=0.05, explicit=0.7, zero_journey=0.1):
     """A well-formed model. ``sharing``: none | infra_only | jobs_too (drawn when None)."""
     if sharing is None:
         sharing = draw(st.sampled_from(["none", "infra_only", "jobs_too", "jobs_too"]))
@@ -339,6 +339,12 @@ def specs(draw, sharing=None, builders=None, max_len=48, long_prob=0.1, neg_stor
             jn = "uj_" + u_
             objs[jn] = {"cls": "UsageJourney", "uj_steps": stp + (some(stp, 0, 1))}
             up_journey[u_] = jn
+    # now and then a journey of null total duration (all its steps last 0 s): journeys in parallel, device energy...
+    # are then 'no value' and switch to values when a duration is edited
+    if draw(st.floats(0, 1)) < zero_journey:
+        jn = draw(st.sampled_from(sorted(set(up_journey.values()))))
+        for s_ in objs[jn]["uj_steps"]:
+            objs[s_]["user_time_spent"] = [0.0, "s"]
     for k, u_ in enumerate(up_names):
         if sharing == "none":
             dv = [devices[k % len(devices)]] if k < len(devices) else None
